@@ -8,7 +8,9 @@ def replay(name, e, src_root):
     # the sweep of the thorough tier checks the bound that IS proved, L*T + L + 128: the excess of one 128-byte chunk after a stale refill
     # stamp is the recorded known finding (known_findings.json, obligations ...[one chunk granted from a full bucket ...]); anything beyond
     # it, a bucket outside its cap, a stalled waiter or a sleeping unlimited limiter is reported
-    req = {'slack': 128 if ('burst+1chunk' in name or 'native-sweep' in name) else 0}
+    # only the two obligations of the recorded known finding ("... whose refill stamp is stale") are replayed against the exact bound;
+    # for every other obligation the battery must not count the known 128-byte excess as ITS failing input
+    req = {'slack': 0 if 'refill stamp is stale' in name else 128}
     out = native(req, src_root, script='native_c20.py')
     path = write_replay(name, e, note='native replay: real LimitedRateLimiter under a virtual clock, all windows of a schedule battery',
                         extra={'request': req, 'native': out})
